@@ -51,6 +51,7 @@ type HistoryConfig struct {
 	Backend  string
 	Tmp      string
 	Climb    bool // include spellings that climb above the (view) root
+	DiskPre  bool // C02: the backend is only held to FsTree inside the preconditions; never copy a directory into itself
 }
 
 type liveHandle struct {
@@ -233,6 +234,13 @@ func RunHistory(r *rand.Rand, cfg *HistoryConfig, d *Dict, tw *TraceWriter, next
 		case "rstream":
 			op.Chunk = []int{1, 2, 7, 4096, 100000}[r.Intn(5)]
 		}
+		if cfg.DiskPre && op.Sq != nil {
+			// the check's own assumption: the destination of a copy is not inside its source
+			cs, cq := canon(op.Sp), canon(op.Sq)
+			if len(cq) >= len(cs) && strings.Join(cq[:len(cs)], "/") == strings.Join(cs, "/") {
+				continue
+			}
+		}
 		h := &Handles{}
 		var listing []os.FileInfo
 		var res Res
@@ -260,6 +268,9 @@ func RunHistory(r *rand.Rand, cfg *HistoryConfig, d *Dict, tw *TraceWriter, next
 		}
 		t, err := b.Project(d)
 		ev := map[string]interface{}{"ev": "op", "base": segs(v.base), "name": op.Name, "sp": segs(op.Sp), "res": res}
+		if cfg.DiskPre {
+			ev["pre"] = true
+		}
 		if op.Sq != nil {
 			ev["sq"] = segs(op.Sq)
 		}
@@ -298,4 +309,21 @@ func RunHistory(r *rand.Rand, cfg *HistoryConfig, d *Dict, tw *TraceWriter, next
 		}
 	}
 	return nil
+}
+
+// canon reduces a raw spelling the way varutil.ReduceAbsPath does (climbing is clamped).
+func canon(sp []string) []string {
+	var out []string
+	for _, s := range sp {
+		switch s {
+		case "", ".":
+		case "..":
+			if len(out) > 0 {
+				out = out[:len(out)-1]
+			}
+		default:
+			out = append(out, s)
+		}
+	}
+	return out
 }
